@@ -717,6 +717,22 @@ class Unit:
         self.stats["decl-tag"] += 1
         return True
 
+    def forward_tag(self, name):
+        """6.7.2.3p7: `struct NAME;` declares a NEW incomplete tag in the current scope, hiding an outer NAME; a pointer
+        declared before the tag is completed must refer to the tag completed in THIS scope."""
+        if name in self.chain[-1][1]:
+            return False
+        kw = self.rng.choice(["struct", "union"])
+        v = self.newv()
+        self.fn += 1
+        ptr = "fwp_%d" % self.fn
+        self.emit("%s %s; %s%s %s *%s; %s %s { char c[%d]; };" % (kw, name, "" if self.infunc else "extern ", kw, name, ptr, kw, name, v))
+        self.chain[-1][1][name] = (kw, v)
+        self.stats["decl-tag-forward" + ("-shadowing" if self._shadowed(1, name) else "")] += 1
+        self._chk("sizeof(*%s)" % ptr, v, "%s %s; declared a new tag hiding the outer one: the pointer declared before its "
+                  "completion refers to the tag completed in the same scope" % (kw, name[:40]), (1, name))
+        return True
+
     def prototype(self, name):
         """A function declaration whose prototype scope redeclares `name`; nothing may leak."""
         v = self.newv()
@@ -843,8 +859,10 @@ class Unit:
                     self.stats["close"] += 1
             elif r < 0.40:
                 self.declare(rng.choice(self.names))
-            elif r < 0.50:
+            elif r < 0.47:
                 self.declare_tag(rng.choice(self.names))
+            elif r < 0.50:
+                self.forward_tag(rng.choice(self.names))
             elif r < 0.53:
                 self.prototype(rng.choice(self.names))
             elif r < 0.57:
@@ -1043,7 +1061,7 @@ def check_unit(ck, cc, u, tag, d):
             open(sp, "w").write(slc)
             rc2, out2, _ = cproc(cc, sp)
             g2 = {int(m.group(1)): int(m.group(2)) for m in CHK_RE.finditer(out2)} if rc2 == 0 else {}
-            if g2.get(n) != want:
+            if rc2 == 0 and g2.get(n) != want:
                 ck.violation({"kind": "wrong-declaration", "what": "name resolved to the wrong declaration: " + desc,
                               "unit": slc, "probe": "chk_%d" % n, "expected_value": want, "got_value": g2.get(n),
                               "found_in": tag})
